@@ -15,7 +15,7 @@ from types import SimpleNamespace
 
 from .. import astutil as A
 from ..cfg import CFG
-from ..dispatch import body_raises, find_chains, first_match
+from ..dispatch import body_raises, find_chains, first_match, unknown_subclasses_rejected
 from ..guards import MISSING, Interp, Unsupported
 from ..loader import AnalysisError
 from .c01 import ROLES, eval_conds, guard_conditions, schedule_expr_check
@@ -122,6 +122,8 @@ def grafting_table(ctx, rep, rule: str) -> None:
         rep.ob(rule, f"grafting:{name}", ok, fi.loc(call), f"{name} -> {lc.name if lc else '?'}(beta2={got['beta2']!r}, epsilon={got['epsilon']!r}, use_bias_correction={got['use_bias_correction']!r}); documented: {w[0]}(beta2={w[1]!r}, epsilon={w[2]!r}, use_bias_correction={w[3]!r})", sample=True)
     last = chain[-1]
     rep.ob(rule, "grafting:fall-through", last.kind == "else" and body_raises(repo, m, last.body) == "NotImplementedError", fi.loc(last.node), "unsupported grafting configs reach `raise NotImplementedError`")
+    bad = unknown_subclasses_rejected(repo, m, chain, repo.concrete_subclasses(base))
+    rep.ob(rule, "grafting:unknown-subclasses-rejected", not bad, fi.loc(), "a grafting config of an unknown subclass must raise NotImplementedError (its extra semantics are not implemented)" + (f": {bad[:3]}" if bad else ""))
     rep.floor(rule, "_instantiate_grafting arms evaluated", n, 5)
 
 
